@@ -20,6 +20,7 @@ import VaxisModel.Lemmas.EmuBodyReflow
 import VaxisModel.Lemmas.EmuBodySgr
 import VaxisModel.Lemmas.EmuBodyOsc
 import VaxisModel.Lemmas.EmuBodyInline
+import VaxisModel.Lemmas.EmuBodyTop
 import VaxisModel.Lemmas.EmuSafe1
 
 namespace VaxisModel.Props.C05Bodies
@@ -243,6 +244,24 @@ theorem body_esc_arm_2a42 (e : Emu) : evalBody TermBodies.body_esc_arm_2a42 [] [
 theorem body_esc_arm_2b42 (e : Emu) : evalBody TermBodies.body_esc_arm_2b42 [] [] e = .ok { e with cs := { e.cs with g3 := 0 } } := body_esc_arm_2b42_eq e
 theorem body_c0_arm_0e (e : Emu) : evalBody TermBodies.body_c0_arm_0e [] [] e = .ok { e with cs := { e.cs with sel := 1 } } := body_c0_arm_0e_eq e
 theorem body_c0_arm_0f (e : Emu) : evalBody TermBodies.body_c0_arm_0f [] [] e = .ok { e with cs := { e.cs with sel := 2 } } := body_c0_arm_0f_eq e
+
+/-! ### round 4: the arms that only answer the child, are empty or post an event; the parameter clamp of csi() -/
+
+/-- DA1 (`CSI c`): builds and writes the reply; the emulator state is untouched (whatever the reply text is). -/
+theorem body_csi_arm_63 (e : Emu) (pm : List Param) : evalBody TermBodies.body_csi_arm_63 pm [] e = .ok e := body_csi_arm_63_eq e pm
+/-- DA2 (`CSI > c`) -/
+theorem body_csi_arm_3e63 (e : Emu) (pm : List Param) : evalBody TermBodies.body_csi_arm_3e63 pm [] e = .ok e := body_csi_arm_3e63_eq e pm
+/-- DSR (`CSI n`): `switch ps(params) { case 5: reply; case 6: reply }` — for every parameter list -/
+theorem body_csi_arm_6e (e : Emu) (pm : List Param) : evalBody TermBodies.body_csi_arm_6e pm [] e = .ok e := body_csi_arm_6e_eq e pm
+/-- `CSI $ p` (DECRQM for ANSI modes): an empty arm -/
+theorem body_csi_arm_2470 (e : Emu) (pm : List Param) : evalBody TermBodies.body_csi_arm_2470 pm [] e = .ok e := body_csi_arm_2470_eq e pm
+/-- `ESC # 8` (DECALN): an empty arm -/
+theorem body_esc_arm_2338 (e : Emu) : evalBody TermBodies.body_esc_arm_2338 [] [] e = .ok e := body_esc_arm_2338_eq e
+/-- BEL: `vt.postEvent(EventBell{})` — the state is untouched and exactly ONE event is posted -/
+theorem body_c0_arm_07 (e : Emu) : evalBodyEv TermBodies.body_c0_arm_07 [] [] e = .ok (e, 1) := body_c0_arm_07_eq e
+/-- csi(): the statements in front of the dispatch switch — the nested loops over `params` with `if p < 0 || p > maxParam
+    { param[i] = maxParam }` (the constant read from the source) — ARE `clampParams`, for EVERY parameter list, sub-parameters included. -/
+theorem body_csi_pre (pm : List Param) : evalPm TermBodies.body_csi_pre pm = .ok (clampParams pm) := body_csi_pre_eq pm
 
 /-! ### coverage -/
 
